@@ -209,7 +209,7 @@ func (e *Engine) evalEmitOnce(runs []emitRun) []emitObl {
 				}
 			}
 			if r.entry.Lang != "rust" {
-				add(base+":pair", []string{"C05"}, all["in.mp0.Key"] && all["in.mp1.Key"] && all["in.mp2.Key"], "every key of the match table must reach the dispatch table")
+				add(base+":pair", []string{"C05"}, all["in.mp0.Key"] && all["in.mp1.Key"] && all["in.mp2.Key"] && all["in.mp3.Key"], "every key of the match table must reach the dispatch table")
 			} else {
 				// payload enum: one variant per distinct target packet (two keys select packet A in this cell)
 				ok := true
@@ -325,7 +325,7 @@ func (e *Engine) evalEmitOnce(runs []emitRun) []emitObl {
 					all[s] = true
 				}
 			}
-			ok := all["in.mp0.Key"] && all["in.mp1.Key"] && all["in.mp2.Key"]
+			ok := all["in.mp0.Key"] && all["in.mp1.Key"] && all["in.mp2.Key"] && all["in.mp3.Key"]
 			add(base+":pair", []string{"C05", "C02"}, ok, "every key of the match table must reach the dispatch code")
 		}
 		if r.cell.LenAttr && r.entry.Dir == "enc" {
